@@ -165,6 +165,8 @@ def build_template(rng, eoe=False):
             if "req_subcommand" in reqs:
                 cfg["test"]["breq"] = 8
                 required.append((("test", "breq"), "required-option-of-subcommand"))
+                if rng.random() < 0.5:
+                    del cfg["test"]["bx"]  # the required option is the only setting given for the subcommand
         if "req_subcommand" in reqs:
             required.append((("subcommand",), "required-subcommand"))
     return factory, cfg, nodes, required
@@ -204,7 +206,7 @@ def to_argv(cfg):
     return argv + tail
 
 
-def channels(p_factory, cfg, workdir, n, with_argv=None, env=None):
+def channels(p_factory, cfg, workdir, n, with_argv=None, env=None, nodefaults=False):
     outs = {}
     text = json.dumps(cfg)
     outs["object"] = call(p_factory().parse_object, copy.deepcopy(cfg))
@@ -217,6 +219,10 @@ def channels(p_factory, cfg, workdir, n, with_argv=None, env=None):
     outs["path"] = call(p_factory().parse_path, path)
     if with_argv is not None:
         outs["argv"] = call(p_factory().parse_args, with_argv)
+    if nodefaults:
+        # only what is given, no defaults merged in: unknown keys and missing required ones are reported all the same
+        outs["object_nodefaults"] = call(p_factory().parse_object, copy.deepcopy(cfg), defaults=False)
+        outs["string_nodefaults"] = call(p_factory().parse_string, text, defaults=False)
     return outs
 
 
@@ -287,7 +293,7 @@ def case(ctx, i, rng):
             argv = None
             if how == "removed" and kind in ("required-option", "required-nested-option", "required-option-of-subcommand", "required-option-of-subcommand-level2", "required-class-group-param", "required-dataclass-field", "required-subclass-argument"):
                 argv = to_argv(mutated)
-            outs = channels(factory, mutated, ctx.workdir, i, with_argv=argv)
+            outs = channels(factory, mutated, ctx.workdir, i, with_argv=argv, nodefaults=True)
             for ch, o in outs.items():
                 ctx.count("mon.required_key_mutations")
                 ctx.count(f"st.required.{kind}")
@@ -314,7 +320,7 @@ def case(ctx, i, rng):
 
 
 def ch_family(ch):
-    return {"object": "object", "string": "text", "cfg_string": "text", "cfg_file": "text", "path": "text", "argv": "argv"}[ch]
+    return {"object_nodefaults": "object-nodefaults", "string_nodefaults": "text-nodefaults", "object": "object", "string": "text", "cfg_string": "text", "cfg_file": "text", "path": "text", "argv": "argv"}[ch]
 
 
 def run_shard(ctx):
